@@ -51,7 +51,291 @@ def specPattern (w : Varint.Bytes) : List Step → Option Varint.Bytes
   | .adv k :: ks => specPattern (w.drop k) ks
   | .chunk _ :: ks => if ks.all (fun s => match s with | .chunk _ => true | _ => false) then some w else none
 
+
+/-! ### `dgram encm`: the payload is a list of chunks -/
+
+def drainMd : Nat → EncM → Varint.Bytes
+  | 0, _ => []
+  | f+1, e => if e.chunk.isEmpty then [] else e.chunk ++ drainMd f (e.advance e.chunk.length)
+
+def readNM : Nat → EncM → Nat → Varint.Bytes × EncM
+  | 0, e, _ => ([], e)
+  | f+1, e, left =>
+    if left = 0 then ([], e) else
+    let t := min left e.chunk.length
+    if t = 0 then ([], e) else
+    let (r, e') := readNM f (e.advance t) (left - t)
+    (e.chunk.take t ++ r, e')
+
+def runPatternM : EncM → List Step → Varint.Bytes × EncM
+  | e, [] => ([], e)
+  | e, .chunk k :: ks =>
+    let t := min k e.chunk.length
+    let (r, e') := runPatternM (e.advance t) ks
+    (e.chunk.take t ++ r, e')
+  | e, .read k :: ks =>
+    let (y, e1) := readNM (e.remaining + 1) e (min k e.remaining)
+    let (r, e') := runPatternM e1 ks
+    (y ++ r, e')
+  | e, .adv k :: ks => runPatternM (e.advance (min k e.remaining)) ks
+
+/-- chunks separated by `|`, none empty -/
+def parseChunks (s : String) : Option (List Varint.Bytes) :=
+  match (s.splitOn "|").mapM parseHex with
+  | some cs => if cs.isEmpty || cs.any (·.isEmpty) then none else some cs
+  | none => none
+
+/-! ### `dgram scen <role> <cfg> <op>…`: `DatagramSender` / `DatagramReader` of a plain client / server connection
+    over the simulated transport (harness `scen.rs`; ops `drv.` / `conn.` `dgs:<sid>:<hex,…>`, `dgr[:<n>]`, `W` / `A` /
+    `AL`, peer ops `d:<hex>`, `dq:<mode>`, `C<code>`, `T`).
+
+    ONE interpreter (the harness's task discipline: a call that waits blocks its task, later commands queue; a driver
+    that is being polled reports the connection's error before the next command) is run twice, with two `Sem`s:
+    `modelSem` = the code (`Datagram.encode` through the `Buf` view, `Datagram.decode`, `handleSendError`),
+    `specSem` = RFC 9297 §2.1 (`varint(sid/4) ‖ payload`, `rfcDecode`) and the sentences on errors: TooLarge /
+    NotAvailable are answered to the caller and are not connection errors; a transport connection error is the
+    connection's outcome and every handle names it like the driver does (C05). -/
+
+inductive Mode where
+  | ok | na | tl | max (n : Nat) | conn (e : CE)
+
+structure Sem where
+  wire : Nat → Varint.Bytes → Varint.Bytes
+  /-- `none` = H3_DATAGRAM_ERROR -/
+  dec : Varint.Bytes → Option (Nat × Varint.Bytes)
+  /-- the sender's answer to a transport connection error `e` when `first` is the connection's error afterwards -/
+  sendConn : CE → Origin → String
+
+def ceStr : CE → String
+  | .app c => s!"app:{c}"
+  | .timeout => "timeout"
+  | .internal => "internal"
+  | .undefined => "undefined"
+
+def codeName (c : Nat) : String := if c = 0x33 then "H3_DATAGRAM_ERROR" else s!"0x{c}"
+
+def connErrStr : ConnErr → String
+  | .remote e => "remote:" ++ ceStr e
+  | .timeout => "timeout"
+  | .local_ c => "local:" ++ codeName c
+
+def sendErrStr : SendErr → String
+  | .notAvailable => "not-available"
+  | .tooLarge => "too-large"
+  | .conn e => "err:conn:" ++ connErrStr e
+
+def modelSem : Sem where
+  wire := fun sid p => (H3.Datagram.encode sid p).view
+  dec := fun b => match H3.Datagram.decode b with | .ok s p => some (s, p) | .datagramError => none
+  sendConn := fun e first =>
+    let a := (handleSendError (.conn e)).1
+    -- the answer names the transport's own value wrapped in `Remote`: D-18b where that is not what the connection reports
+    sendErrStr a ++ (if a = .conn (convertOrigin first) then "" else if first = .quic e then "#D-18b" else "")
+
+def specSem : Sem where
+  wire := fun sid p => Varint.encode (sid / 4) ++ p
+  dec := fun b => match Varint.rfcDecode b with
+    | none => none
+    | some (q, rest) => if 4 * q > 2^62 - 1 then none else some (4 * q, rest)
+  -- the connection's outcome when this error is the first one; no opinion when the connection had failed before
+  sendConn := fun e first => if first = .quic e then "err:conn:" ++ connErrStr (convertOrigin (.quic e)) else "*"
+
+inductive Blocked where
+  | none
+  | dgr (left : Nat) (got : List String)
+  | accept
+
+structure Sc where
+  task : String
+  server : Bool
+  mode : Mode := .ok
+  tErr : Option CE := none
+  origin : Option Origin := none
+  closed : List Nat := []
+  rx : List Varint.Bytes := []
+  tx : List Varint.Bytes := []
+  trace : List String := []
+  blocked : Blocked := .none
+  queue : List String := []
+  driving : Bool := false
+  panicked : Bool := false
+
+def Sc.log (s : Sc) (op res : String) : Sc := { s with trace := s.trace ++ [s!"{s.task}.{op}={res}"] }
+
+def drvOp (s : Sc) : String := if s.server then "A" else "W"
+
+/-- the driver is polled: it takes the stored error (or the transport's), closes if h3 has to, and reports it -/
+def observe (s : Sc) : Option (Sc × String) :=
+  match s.origin.orElse (fun _ => s.tErr.map .quic) with
+  | none => none
+  | some o =>
+    let already := s.origin.isSome && s.closed.length > 0
+    let closed := match closeCode o with
+      | some c => if already || s.closed.contains c then s.closed else s.closed ++ [c]
+      | none => s.closed
+    some ({ s with origin := some o, closed := closed }, connErrStr (convertOrigin o))
+
+/-- a driver that is being polled (`W` / `AL`) reports the error as soon as there is one -/
+def pollDriver (s : Sc) : Sc :=
+  if !s.driving then s else
+  match observe s with
+  | none => s
+  | some (s, e) => { (s.log (drvOp s) s!"err:{e}") with driving := false }
+
+def sendOne (sem : Sem) (s : Sc) (sid : Nat) (p : Varint.Bytes) : Sc × String :=
+  match s.tErr.orElse (fun _ => match s.mode with | .conn e => some e | _ => none) with
+  | some e =>
+    let first := s.origin.getD (.quic e)
+    ({ s with origin := some first }, sem.sendConn e first)
+  | none =>
+    match s.mode with
+    | .na => (s, "not-available")
+    | .tl => (s, "too-large")
+    | _ =>
+      let w := sem.wire sid p
+      let big : Bool := match s.mode with | .max n => decide (w.length > n) | _ => false
+      if big then (s, "too-large") else ({ s with tx := s.tx ++ [w] }, "ok")
+
+def sendAll (sem : Sem) (s : Sc) (sid : Nat) : List Varint.Bytes → List String → Sc × List String
+  | [], acc => (s, acc)
+  | p :: ps, acc => let (s, r) := sendOne sem s sid p; sendAll sem s sid ps (acc ++ [r])
+
+/-- continue a `dgr` that has `left` reads to make -/
+def readMore (sem : Sem) : Nat → Sc → Nat → List String → Sc
+  | 0, s, _, _ => s
+  | f + 1, s, left, got =>
+    let fin (s : Sc) (got : List String) : Sc := { (s.log "dgr" (",".intercalate got)) with blocked := .none }
+    if left = 0 then fin s got else
+    match s.tErr with
+    | some e =>
+      let first := s.origin.getD (.quic e)
+      fin { s with origin := some first } (got ++ ["err:conn:" ++ connErrStr (convertOrigin first)])
+    | none =>
+      match s.rx with
+      | [] => { s with blocked := .dgr left got }
+      | d :: rest =>
+        let s := { s with rx := rest }
+        match sem.dec d with
+        | some (sid, p) => readMore sem f s (left - 1) (got ++ [s!"dg:{sid}:{toHex p}"])
+        | none =>
+          let first := s.origin.getD (.internal 0x33)
+          fin { s with origin := some first } (got ++ ["err:conn:" ++ connErrStr (convertOrigin first)])
+
+def parseHexList (s : String) : Option (List Varint.Bytes) := (s.splitOn ",").mapM parseHex
+
+/-- one command of the connection task (the task is not blocked) -/
+def runCmd (sem : Sem) (s : Sc) (cmd : String) : Sc :=
+  match cmd.splitOn ":" with
+  | ["dgs", sid, hs] =>
+    match sid.toNat?, parseHexList hs with
+    | some sid, some ps =>
+      if sid ≥ 2^62 then s.log "dgs" "bad-cmd"
+      else if sid % 4 ≠ 0 then { s with panicked := true }
+      else let (s, rs) := sendAll sem s sid ps []; s.log "dgs" (",".intercalate rs)
+    | _, _ => s.log "dgs" "bad-cmd"
+  | ["dgr"] => readMore sem 1000 s 1 []
+  | ["dgr", n] => readMore sem 1000 s (max 1 (n.toNat?.getD 1)) []
+  | [op] =>
+    if op == drvOp s && op == "W" then { s with driving := true }
+    else if op == "AL" && s.server then { s with driving := true }
+    else if op == "A" && s.server then
+      match observe s with
+      | some (s, e) => s.log "A" s!"err:{e}"
+      | none => { s with blocked := .accept }
+    else s.log op "bad-cmd"
+  | _ => s.log ((cmd.splitOn ":").headD cmd) "bad-cmd"
+
+/-- run the task as far as it gets: resume what it waits for, then the queued commands in order; the driver
+    (if it is being polled) speaks between two commands -/
+def settle (sem : Sem) : Nat → Sc → Sc
+  | 0, s => s
+  | f + 1, s =>
+    if s.panicked then s else
+    match s.blocked with
+    | .dgr left got =>
+      let s' := readMore sem 1000 { s with blocked := .none } left got
+      (match s'.blocked with
+       | .none => settle sem f s'
+       | _ => s')
+    | .accept =>
+      (match s.tErr with
+       | none => s
+       | some _ =>
+         match observe s with
+         | some (s, e) => settle sem f { (s.log "A" s!"err:{e}") with blocked := .none }
+         | none => s)
+    | .none =>
+      let s := pollDriver s
+      match s.queue with
+      | [] => s
+      | c :: q => settle sem f (runCmd sem { s with queue := q } c)
+
+def parseMode (m : String) : Option Mode :=
+  if m == "ok" then some .ok else if m == "na" then some .na else if m == "tl" then some .tl
+  else if m == "T" then some (.conn .timeout) else if m == "I" then some (.conn .internal)
+  else if m == "U" then some (.conn .undefined)
+  else if m.startsWith "max=" then (m.drop 4).toString.toNat?.map .max
+  else if m.startsWith "C" then (m.drop 1).toString.toNat?.map fun c => .conn (.app c)
+  else none
+
+def scenOp (sem : Sem) (s : Sc) (op : String) : Option Sc :=
+  let pre := s.task ++ "."
+  if op.startsWith pre then
+    let cmd := (op.drop pre.length).toString
+    some (settle sem 4000 { s with queue := s.queue ++ [cmd] })
+  else if op.startsWith "dq:" then (parseMode (op.drop 3).toString).map fun m => { s with mode := m }
+  else if op.startsWith "d:" then
+    (parseHex (op.drop 2).toString).map fun b => settle sem 4000 { s with rx := s.rx ++ [b] }
+  else if op == "T" then some (settle sem 4000 { s with tErr := s.tErr.orElse fun _ => some .timeout })
+  else if op.startsWith "C" then
+    ((op.drop 1).toString.toNat?).map fun c => settle sem 4000 { s with tErr := s.tErr.orElse fun _ => some (.app c) }
+  else none
+
+def scenRun (sem : Sem) (s : Sc) : List String → Option Sc
+  | [] => some s
+  | op :: ops => match scenOp sem s op with | some s => scenRun sem s ops | none => none
+
+def scenShow (s : Sc) : String :=
+  if s.panicked then "panic" else
+  let pend := match s.blocked with
+    | .dgr _ _ => [s!"{s.task}.dgr"]
+    | .accept => [s!"{s.task}.A"]
+    | .none => if s.driving then [s!"{s.task}.{drvOp s}"] else []
+  " ".intercalate ([s!"{s.task}.build=ok"] ++ s.trace ++
+    ["closed=[" ++ ",".intercalate (s.closed.map toString) ++ "]",
+     "dgrams=[" ++ ",".intercalate (s.tx.map toHex) ++ "]",
+     "pending=[" ++ ",".intercalate pend ++ "]"])
+
+def handleScen (role : String) (ops : List String) : String :=
+  if role != "client" && role != "server" then "bad-op" else
+  let s0 : Sc := { task := if role == "server" then "conn" else "drv", server := role == "server" }
+  match scenRun modelSem s0 ops, scenRun specSem s0 ops with
+  | some m, some sp => scenShow m ++ " ## " ++ (if sp.panicked then "?" else scenShow sp)
+  | _, _ => "bad-op"
+
 def handle : List String → String
+  | "dgram" :: "scen" :: role :: _cfg :: ops => handleScen role ops
+  | ["dgram", "encm", sid, ch, pat] =>
+    match sid.toNat?, parseChunks ch, parsePattern pat with
+    | some s, some cs, some ks =>
+      let m :=
+        if s ≥ 2^62 then "refused" else
+        match H3.Datagram.new s cs.flatten with
+        | none => "panic"
+        | some _ =>
+          let e := encodeM s cs
+          let (y, e') := runPatternM e ks
+          let rest := drainMd (e'.remaining + 1) e'
+          s!"ok {toHex (y ++ rest)} rem0={e.remaining}"
+      -- the oracle never looks at the chunking: positions over `varint(sid/4) ‖ flattened payload`
+      let sp :=
+        if s ≥ 2^62 then "refused" else if s % 4 ≠ 0 then "?" else
+          let w := Varint.encode (s / 4) ++ cs.flatten
+          match specPattern w ks with
+          | some y => s!"ok {toHex y} rem0={w.length}"
+          | none => s!"ok * rem0={w.length}"
+      m ++ " ## " ++ sp
+    | _, _, _ => "bad-op"
   | ["dgram", "enc", sid, ph, pat] =>
     match sid.toNat?, parseHex ph, parsePattern pat with
     | some s, some p, some ks =>
